@@ -651,6 +651,16 @@ def run(ctx, rep, model=None):
         for n in A.walk(f.node):
             if isinstance(n, (ast.Import, ast.ImportFrom, ast.Global)):
                 bad_calls.append((n, "import/global statement in the decoder"))
+            # a store through a module-level name (`_state.depth += 1`, `_cache[k] = v`): decoding one packet changes what the
+            # next one - of any connection - sees (and an exception between two such stores leaves the state skewed)
+            tg = n.targets if isinstance(n, ast.Assign) else [n.target] if isinstance(n, (ast.AugAssign, ast.AnnAssign)) else []
+            for t in tg:
+                b = t
+                while isinstance(b, (ast.Attribute, ast.Subscript)):
+                    b = b.value
+                if b is not t and isinstance(b, ast.Name) and b.id in f.module.toplevel and b.id not in A.params(f.node) and \
+                        b.id not in {x.id for x in A.walk(f.node) if isinstance(x, ast.Name) and isinstance(x.ctx, ast.Store)}:
+                    bad_calls.append((n, "store to module-level state `%s`" % A.src(t)))
     rep.ob("R04.7", "brine.load: no effectful operation in the decoder closure", not bad_calls,
            "%d unresolved callees, all in the pure set {read, unpack, decode, BytesIO, int, complex, slice, frozenset, "
            "tuple, range}" % n_ext if not bad_calls else
